@@ -51,7 +51,7 @@ ASSUMPTIONS = [
 ]
 PROBES = ["one-socket-id-towards-two-remote-nodes", "request-outlives-its-subroutine", "purpose-id-differs-from-socket-id", "request-refused-by-stack", "sdk-form", "early-response", "deferred-busy-qubit", "two-requests-one-key", "cross-key-reorder", "wait-polled",
           "wait_any", "wait_single", "create-role", "recv-role", "type-M", "type-K", "legacy-tuples", "qlink-objects",
-          "two-apps-concurrent", "retry-fired"]
+          "two-apps-concurrent", "retry-fired", "array-addresses-declared-again-by-the-next-subroutine"]
 
 GHOSTS = [7, 8]
 T0, T1, T2, T3, T4 = ("R", 0), ("R", 1), ("R", 2), ("R", 3), ("R", 4)
@@ -105,7 +105,11 @@ def gen_scenario(ch: Choices, calm: bool, tier: str = "quick", avoid: Any = ()) 
         subs = []
         addr = 0
         vnext = 0
+        # as the SDK does after every flush: each subroutine declares its arrays at the same addresses again
+        reuse_addr = (not calm) and ch.flag(1, 3, "reuse-addr")
         for s in range(n_subs):
+            if reuse_addr:
+                addr = 0
             n_req = 1 + ch.weighted([2, 3, 2, 2, 1] if deep else [2, 3, 2], "nreq")
             reqs = []
             key_type: Dict[Tuple[int, str], str] = {}
@@ -135,7 +139,7 @@ def gen_scenario(ch: Choices, calm: bool, tier: str = "quick", avoid: Any = ()) 
                 order[i], order[jx] = order[jx], order[i]
             subs.append({"reqs": reqs, "filler": filler, "waits": waits, "order": order, "unit_need": vnext})
         # a request may outlive its subroutine: issued in one, awaited only in the application's next one
-        if not calm and "request-outlives-subroutine" not in avoid:
+        if not calm and "request-outlives-subroutine" not in avoid and not reuse_addr:
             for si in range(len(subs) - 1):
                 for r in subs[si]["reqs"]:
                     if not r.busy and ch.flag(1, 6, "outlive"):
@@ -153,7 +157,7 @@ def gen_scenario(ch: Choices, calm: bool, tier: str = "quick", avoid: Any = ()) 
             addr += 3
             subs.insert(ch.draw(len(subs), "refpos"), {"reqs": [rr], "filler": 0, "waits": [0], "order": [0], "unit_need": vnext,
                                                          "refused": True})
-        apps.append({"id": a, "socks": socks, "subs": subs, "unit": max(vnext, 1)})
+        apps.append({"id": a, "socks": socks, "subs": subs, "unit": max(vnext, 1), "reuse_addr": reuse_addr and n_subs > 1})
     return {"apps": apps}
 
 
@@ -247,6 +251,7 @@ def run_sdk(ch: Choices, opts: Dict[str, Any], calm: bool) -> Dict[str, Any]:
     sched = Sched(ch, trace, mode=mode, max_cost=0 if calm else 40)
     legacy = ch.flag(1, 3, "legacy")
     link = FakeLink(ch, sched, trace, legacy=legacy, max_gen_delay=0 if calm else 400, max_deliver_delay=0 if calm else 400)
+    link.eager = (not calm) and ch.flag(1, 4, "eager-link")   # the first pair may be answered from inside put()
     nodes = [ControllerNode(f"n{i}", i, TraceQMem(lambda q: 0), lambda: sched.now, flavour="vanilla", link=link) for i in (0, 1)]
     pk = [install_purpose_map(ch, nd) for nd in nodes]
     faults: Dict[str, int] = {}
@@ -378,7 +383,14 @@ def run_sdk(ch: Choices, opts: Dict[str, Any], calm: bool) -> Dict[str, Any]:
     nontrivial = any(probes.get(k) for k in ("early-response", "two-requests-one-key", "cross-key-reorder"))
     wd = hashlib.blake2b(repr(plans).encode(), digest_size=6).hexdigest()
     return {"digest": trace.digest(), "fingerprint": sched.fingerprint() + wd, "nontrivial": bool(nontrivial),
-            "events": sched.steps, "sim_ns": sched.now, "faults": faults, "probes": probes, "calm": calm, "sample": sample}
+            "events": sched.steps, "sim_ns": sched.now, "faults": _with_link(faults, link), "probes": probes, "calm": calm, "sample": sample}
+
+
+def _with_link(faults: Dict[str, int], link: Any) -> Dict[str, int]:
+    for k in ("answered-from-inside-put",):
+        if link.counters.get(k):
+            faults[k] = faults.get(k, 0) + link.counters[k]
+    return faults
 
 
 def run(ch: Choices, opts: Dict[str, Any]) -> Dict[str, Any]:
@@ -395,6 +407,7 @@ def run(ch: Choices, opts: Dict[str, Any]) -> Dict[str, Any]:
     link = FakeLink(ch, sched, trace, legacy=legacy,
                     max_gen_delay=0 if calm else (3000 if slow_link else 300),
                     max_deliver_delay=0 if calm else (3000 if slow_link else 300))
+    link.eager = (not calm) and ch.flag(1, 4, "eager-link")   # the first pair may be answered from inside put()
     node = ControllerNode("n0", 0, qm, lambda: sched.now, flavour="vanilla", link=link)
     pk = [install_purpose_map(ch, node)]
     node.stack.refuse = lambda req: getattr(req, "max_time", 0) == REFUSE_TAG
@@ -440,26 +453,51 @@ def run(ch: Choices, opts: Dict[str, Any]) -> Dict[str, Any]:
                 bump(probes, "early-response")
                 bump(faults, "response-before-request", early)
             issued.append({"key": key, "app": aid, "sid": sid, "ent": ent, "qa": qa, "n": n, "filled": 0,
-                           "order": len(issued), "step": sched.seq})
+                           "order": len(issued), "step": sched.seq,
+                           "vids": list(exr._app_arrays[aid]._arrays.get(qa) or [])})
             bump(probes, role + "-role")
             trace.add("issue", aid, role, remote, sock, n)
+        elif mn == "ret_arr":
+            # what the host gets for a request is what its array holds when it is returned (the address may be declared
+            # again by the application's next subroutine)
+            a_ret = command.address.address
+            for x in reversed(issued):
+                if x["app"] == aid and x["ent"] == a_ret:
+                    x.setdefault("snapshot", list(exr._app_arrays[aid]._arrays[a_ret]))
+                    break
         elif mn in ("wait_all", "wait_any", "wait_single"):
             arrs = exr._app_arrays[aid]._arrays
             if mn == "wait_single":
                 i = exr._get_register(aid, command.entry.index)
-                vals = [arrs[command.entry.address.address][i]]
+                w_addr = command.entry.address.address
+                vals = [arrs[w_addr][i]]
                 ok = vals[0] is not None
+                need = i // 10 + 1
                 bump(probes, "wait_single")
             else:
                 a0 = exr._get_register(aid, command.slice.start)
                 a1 = exr._get_register(aid, command.slice.stop)
-                vals = arrs[command.slice.address.address][a0:a1]
+                w_addr = command.slice.address.address
+                vals = arrs[w_addr][a0:a1]
                 ok = all(v is not None for v in vals) if mn == "wait_all" else any(v is not None for v in vals)
+                need = (a1 + 9) // 10 if mn == "wait_all" else a0 // 10 + 1
                 if mn == "wait_any":
                     bump(probes, "wait_any")
             if not ok:
                 raise Violation("wait", f"wait|resumed-before-condition|{mn}",
                                 {"app": aid, "pc": pc, "values": vals, "trace": _tail(trace)})
+            # ... and defined by the answers to THIS request: when exactly one booked request of the application writes
+            # into the awaited array, it must have consumed the pairs the wait covers (pairs fill their slices in order)
+            booked = []
+            for reqs in list(exr._epr_create_requests.values()) + list(exr._epr_recv_requests.values()):
+                for r in reqs:
+                    sub_r = exr._subroutines.get(r.subroutine_id)
+                    if sub_r is not None and sub_r.app_id == aid and r.ent_results_array_address == w_addr:
+                        booked.append(r)
+            if len(booked) == 1 and booked[0].tot_pairs - booked[0].pairs_left < need:
+                raise Violation("wait", f"wait|resumed-before-its-request-was-answered|{mn}",
+                                {"app": aid, "pc": pc, "array": w_addr, "pairs_consumed": booked[0].tot_pairs - booked[0].pairs_left,
+                                 "pairs_awaited": need, "trace": _tail(trace)})
 
     node.env.after_instr.append(after_instr)
 
@@ -517,6 +555,8 @@ def run(ch: Choices, opts: Dict[str, Any]) -> Dict[str, Any]:
         return cur
 
     # ---- host tasks -------------------------------------------------------
+    if any(app.get("reuse_addr") for app in sc["apps"]):
+        bump(probes, "array-addresses-declared-again-by-the-next-subroutine")
     if any(so.get("reused") for app in sc["apps"] for so in app["socks"]):
         bump(probes, "one-socket-id-towards-two-remote-nodes")
     for app in sc["apps"]:
@@ -611,20 +651,20 @@ def run(ch: Choices, opts: Dict[str, Any]) -> Dict[str, Any]:
             bump(faults, "cross-key-reorder")
         last_order = max(last_order, x["order"])
         want = expected_slice(d)
-        arr = ex._app_arrays[x["app"]]._arrays[x["ent"]]
+        arr = x.get("snapshot") or ex._app_arrays[x["app"]]._arrays[x["ent"]]
         got = arr[10 * kk:10 * (kk + 1)]
         if got != want:
             cls = "wrong-slice" if any(arr[10 * q:10 * (q + 1)] == want for q in range(x["n"])) else "wrong-content"
             raise Violation("matcher", f"matcher|{cls}|{d['role']}|{'K' if want[0] == 0 else 'M'}",
                             {"key": key, "request": {k2: v for k2, v in x.items()}, "pair": kk, "got": got, "want": want,
                              "trace": _tail(trace)})
-        sl = (x["app"], x["ent"], kk)
+        sl = (x["app"], x["ent"], x["order"], kk)
         if sl in seen_slices:
             raise Violation("matcher", "matcher|slice-filled-twice", {"slice": sl, "trace": _tail(trace)})
         seen_slices.add(sl)
         if want[0] == 0:
             # keep pair: the request's k-th virtual id maps to the delivered physical id
-            vid = ex._app_arrays[x["app"]]._arrays[x["qa"]][kk]
+            vid = x["vids"][kk]
             um = ex._qubit_unit_modules[x["app"]]
             if um[vid] != want[2]:
                 raise Violation("matcher", "matcher|keep-qubit-mapped-wrongly",
@@ -647,7 +687,7 @@ def run(ch: Choices, opts: Dict[str, Any]) -> Dict[str, Any]:
                          digest_size=6).hexdigest()
     return {
         "digest": trace.digest(), "fingerprint": sched.fingerprint() + wd, "nontrivial": bool(nontrivial),
-        "events": sched.steps, "sim_ns": sched.now, "faults": faults, "probes": probes, "calm": calm,
+        "events": sched.steps, "sim_ns": sched.now, "faults": _with_link(faults, link), "probes": probes, "calm": calm,
         "sample": {"config": {"apps": len(sc["apps"]), "mode": mode, "calm": calm, "legacy": legacy, "slow_link": slow_link},
                    "requests": [[{k: v for k, v in r.__dict__.items() if k in ("sock", "remote", "role", "tp", "n", "vids", "busy")}
                                  for r in s["reqs"]] for a in sc["apps"] for s in a["subs"]],
